@@ -550,7 +550,7 @@ func init() {
 		},
 		Run:           c18Run,
 		MinNontrivial: 300,
-		Rule: "case k: a command tree (depth <=3, hidden options and commands 20% whose names share the first letter with visible ones, Completer-typed options/positionals, non-ASCII short names, optional arguments, Commander nodes), a valid intent prefix (options with separate and attached arguments, clusters incl. one ending in an argument-taking flag, command words, positionals) cut at a random item boundary, and a partial last word of class (k/3 mod 11): partial long name of every length 0..len (+ impossible suffix), bare --, bare -, partial value in the forms --opt=, -o=, -oV and separate token, partial command name, partial positional value, a command word after a plain argument with optional sub-commands, non-empty short partial. " +
+		Rule: "1 case in 16: a parser built through the API only (options registered with AddOption, some hidden, some short-only; parser / namespaced group / command homes): the words -, -- and partial long names complete to exactly the visible options in scope. case k: a command tree (depth <=3, hidden options and commands 20% whose names share the first letter with visible ones, Completer-typed options/positionals, non-ASCII short names, optional arguments, Commander nodes), a valid intent prefix (options with separate and attached arguments, clusters incl. one ending in an argument-taking flag, command words, positionals) cut at a random item boundary, and a partial last word of class (k/3 mod 11): partial long name of every length 0..len (+ impossible suffix), bare --, bare -, partial value in the forms --opt=, -o=, -oV and separate token, partial command name, partial positional value, a command word after a plain argument with optional sub-commands, non-empty short partial. " +
 			"Oracle: CompletionHandler called once, nothing executed, list sorted, list == expected set computed from the intent context (visible options in scope / vocabulary entries re-attached to the spelling / visible sub-command names; nothing while a positional is pending), every offered option or command is accepted by the real parser at that position, and the parser's own parse of the prefix reaches the same context. distinct = (class, list size, depth, prefix length).",
 		Assumptions: []string{"a non-empty short partial (-v) is echoed back by design (unit-tested): only sortedness/no-panic asserted", "options inside hidden groups, PassAfterNonOption, IgnoreUnknown and the terminator are not combined with completion", "a visible short-only option whose rune is also the short name of a long-listed option is unspecified for the bare dash"},
 		Technique:   "runtime reference-model monitor: completion lists compared with the continuation set derived from the intent context, cross-checked against the real parser (acceptance of every offered item, same command context); multi-step histories on one parser with direct oracles",
